@@ -5,6 +5,14 @@ From Coq Require Import Permutation.
 
 (* ---------------- shuffles ---------------- *)
 
+Lemma NoDup_app_remove_l {A} (a c : list A) : NoDup (a ++ c) -> NoDup c.
+Proof. induction a as [|x a IH]; cbn; auto. intros H. inversion H; auto. Qed.
+Lemma NoDup_app_remove_r {A} (a c : list A) : NoDup (a ++ c) -> NoDup a.
+Proof.
+  induction a as [|x a IH]; cbn; intros H; [constructor|]. inversion H; subst. constructor; auto.
+  intros Hin. apply H2. apply in_or_app. now left.
+Qed.
+
 Lemma shuffle_perm a b c : Shuffle a b c -> Permutation c (a ++ b).
 Proof.
   induction 1; cbn; auto.
@@ -164,8 +172,9 @@ Proof.
       * destruct ks as [|ks]; [lia|]. cbn in Hd, Hs. inversion Hd; subst sd.
         apply precedes_app_lr.
         -- apply (stage_trace_In st t1 (ER d) H1). exact Id.
-        -- apply (staged_In l t2 (EF s) H2). cbn. apply in_concat. exists (concat ss). split; auto.
-           apply in_map. eapply nth_error_In; eauto.
+        -- apply (staged_In l t2 (EF s) H2). cbn [ev_tag]. apply in_concat in Is. destruct Is as (g & Hg & Is).
+           apply in_concat. exists g. split; auto. apply in_concat. exists ss. split; auto.
+           eapply nth_error_In; eauto.
       * destruct ks as [|ks]; [lia|]. apply precedes_app_r. apply IH; auto.
         left. exists kd, ks, sd, ss. repeat split; auto. lia.
     + destruct k as [|k]; cbn in Hk.
@@ -222,26 +231,28 @@ Lemma placed_cases (l : lay) a c :
   side_by_side l a c \/ lay_before l a c \/ lay_before l c a.
 Proof.
   intros ND Ha Hc Hne.
-  apply in_concat in Ha. destruct Ha as (fa & Hfa & Ha). apply in_map_iff in Hfa. destruct Hfa as (sa & <- & Hsa).
-  apply in_concat in Hc. destruct Hc as (fc & Hfc & Hc). apply in_map_iff in Hfc. destruct Hfc as (sc & <- & Hsc).
+  apply in_concat in Ha. destruct Ha as (ga & Hga & Ha). apply in_concat in Hga. destruct Hga as (sa & Hsa & Hga).
+  apply in_concat in Hc. destruct Hc as (gc & Hgc & Hc). apply in_concat in Hgc. destruct Hgc as (sc & Hsc & Hgc).
   apply In_nth_error in Hsa. destruct Hsa as (ka & Hka). apply In_nth_error in Hsc. destruct Hsc as (kc & Hkc).
+  assert (Ias : In a (concat sa)) by (apply in_concat; eauto).
+  assert (Ics : In c (concat sc)) by (apply in_concat; eauto).
   destruct (Nat.lt_trichotomy ka kc) as [Hlt|[Heq|Hgt]].
   - right. left. left. exists ka, kc, sa, sc. auto.
   - subst kc. assert (sc = sa) by congruence. subst sc.
-    apply in_concat in Ha. destruct Ha as (ga & Hga & Ha). apply in_concat in Hc. destruct Hc as (gc & Hgc & Hc).
     apply In_nth_error in Hga. destruct Hga as (i & Hi). apply In_nth_error in Hgc. destruct Hgc as (j & Hj).
     destruct (Nat.eq_dec i j) as [->|Hij].
     + assert (gc = ga) by congruence. subst gc.
       assert (NDg : NoDup ga).
       { clear - ND Hka Hi. apply nth_error_In in Hka. apply nth_error_In in Hi.
-        apply in_split in Hka. destruct Hka as (l1 & l2 & ->). rewrite map_app, concat_app in ND. cbn in ND.
+        apply in_split in Hka. destruct Hka as (l1 & l2 & ->). rewrite concat_app, concat_app in ND. cbn in ND.
+        rewrite concat_app in ND.
         apply NoDup_app_remove_l in ND. apply NoDup_app_remove_r in ND.
         apply in_split in Hi. destruct Hi as (s1 & s2 & ->). rewrite concat_app in ND. cbn in ND.
         apply NoDup_app_remove_l in ND. now apply NoDup_app_remove_r in ND. }
       destruct (in_split_two ga a c NDg Ha Hc Hne) as [(g1 & g2 & g3 & E)|(g1 & g2 & g3 & E)].
       * right. left. right. exists ka, sa, ga, g1, g2, g3. repeat split; auto. eapply nth_error_In; eauto.
       * right. right. right. exists ka, sa, ga, g1, g2, g3. repeat split; auto. eapply nth_error_In; eauto.
-    + left. exists ka, sa, i, j, ga, gc. auto.
+    + left. exists ka, sa, i, j, ga, gc. repeat split; auto.
   - right. right. left. exists kc, ka, sc, sa. auto.
 Qed.
 
